@@ -50,9 +50,10 @@ func (n *Nodis) GetSet(key string, value []byte) []byte {
 func (n *Nodis) SetEX(key string, value []byte, seconds int64) {
 	_ = n.exec(func(tx *Tx) error {
 		meta := tx.writeKey(key, n.newStr)
+		// the type assertion comes first: a key of another type must not get a new deadline
+		meta.value.(*str.String).Set(value)
 		meta.key.Expiration = time.Now().UnixMilli()
 		meta.key.Expiration += seconds * 1000
-		meta.value.(*str.String).Set(value)
 		n.signalModifiedKey(key, meta)
 		n.notify(func() []patch.Op {
 			return []patch.Op{{Type: patch.OpTypeSet, Data: &patch.OpSet{Key: key, Value: value, Expiration: meta.key.Expiration}}}
@@ -65,13 +66,14 @@ func (n *Nodis) SetEX(key string, value []byte, seconds int64) {
 func (n *Nodis) SetPX(key string, value []byte, milliseconds int64) {
 	_ = n.exec(func(tx *Tx) error {
 		meta := tx.writeKey(key, n.newStr)
+		// the type assertion comes first: a key of another type must not get a new deadline
+		meta.value.(*str.String).Set(value)
 		meta.key.Expiration = time.Now().UnixMilli()
 		meta.key.Expiration += milliseconds
 		n.signalModifiedKey(key, meta)
 		n.notify(func() []patch.Op {
 			return []patch.Op{{Type: patch.OpTypeSet, Data: &patch.OpSet{Key: key, Value: value, Expiration: meta.key.Expiration}}}
 		})
-		meta.value.(*str.String).Set(value)
 		return nil
 	})
 }
